@@ -23,6 +23,8 @@ type FuncReport struct {
 	QueryBytes  int
 	SolverTimeS float64
 	Preamble    string
+	LightPreamble string
+	RecSyms     []string
 	items       []item
 	Params      []ParamInfo
 	Results     []ParamInfo
@@ -38,6 +40,37 @@ type ParamInfo struct {
 func (e *Engine) newRun(fn *ssa.Function, name string) *run {
 	r := &run{eng: e, root: fn, rootName: name, counters: map[string]int{}, assumed: map[string]bool{},
 		heapSort: map[string]string{}, globDecl: map[*ssa.Global]string{}, usedCtr: map[string]bool{}, inlined: map[string]bool{}, depthCap: 5}
+	// error sentinels in scope: those of the function's package and of the repo packages it imports
+	var root *types.Package
+	if fn != nil {
+		if pk := FnPkg(fn); pk != nil {
+			root = pk.Pkg
+		}
+	}
+	if root == nil {
+		if sp := e.SSAPkgs[repoMod+"/fhirpath/internal/funcs/impl"]; sp != nil {
+			root = sp.Pkg
+		}
+	}
+	seen := map[*types.Package]bool{}
+	var walk func(p *types.Package)
+	walk = func(p *types.Package) {
+		if seen[p] || !inRepo(p) {
+			return
+		}
+		seen[p] = true
+		for _, im := range p.Imports() {
+			walk(im)
+		}
+	}
+	if root != nil {
+		walk(root)
+	}
+	for _, g := range e.ErrGlobs {
+		if seen[g.Pkg.Pkg] {
+			r.sentinels = append(r.sentinels, g)
+		}
+	}
 	return r
 }
 
@@ -94,12 +127,14 @@ func (e *Engine) VerifyFunction(fn *ssa.Function) (rep *FuncReport) {
 	if ct != nil {
 		env := r.newEnv(fr, st)
 		env.ensMode = true
+		r.bindLets(env, ct, fr)
 		for _, rq := range ct.Requires {
 			r.assume("true", r.specBool(env, rq.Expr, rq.Text))
 		}
 		for _, u := range ct.Uses {
 			r.force = append(r.force, u)
 		}
+		r.instantiate(fr, st, ct, env)
 	}
 	// vacuity canary: the preconditions must be satisfiable
 	vac := r.oblige(name, "vacuity", "true", "false", "preconditions and typing facts are satisfiable (must be sat)", fn.Pos())
@@ -112,6 +147,9 @@ func (e *Engine) VerifyFunction(fn *ssa.Function) (rep *FuncReport) {
 	if ct != nil && outReach != "false" {
 		env := r.newEnv(fr, outSt)
 		env.ensMode = true
+		for k, v := range fr.lets {
+			env.extra[k] = v
+		}
 		for i, res := range results {
 			if i < len(ct.ResultNames) {
 				env.extra[ct.ResultNames[i]] = SVal{Term: res.Term, Sort: res.Sort, Type: res.Type}
@@ -196,6 +234,7 @@ var sentinelTok = regexp.MustCompile(`g_[A-Za-z0-9_]+`)
 
 func (e *Engine) finish(r *run, rep *FuncReport) {
 	rep.Obligations = r.obls
+	renumber(r.obls)
 	for a := range r.assumed {
 		rep.Assumed = append(rep.Assumed, a)
 	}
@@ -247,6 +286,45 @@ func (e *Engine) finish(r *run, rep *FuncReport) {
 	pre.WriteString(ptxt)
 	rep.PreludeSyms, rep.Axioms = names, axs
 	rep.Preamble = pre.String()
+	// light preamble: same declarations, without recursive definitions and quantified axioms
+	var lp strings.Builder
+	for _, form := range splitTopLevel(rep.Preamble) {
+		if strings.HasPrefix(form, "(define-fun-rec ") {
+			toks := sexprTokens(form)
+			rep.RecSyms = append(rep.RecSyms, toks[2])
+			continue
+		}
+		if strings.HasPrefix(form, "(assert ") && strings.Contains(form, "(forall ") {
+			continue
+		}
+		lp.WriteString(form)
+		lp.WriteByte('\n')
+	}
+	// definitions that use a recursive symbol cannot stay either
+	changed := true
+	for changed {
+		changed = false
+		var lp2 strings.Builder
+		for _, form := range splitTopLevel(lp.String()) {
+			drop := false
+			if strings.HasPrefix(form, "(define-fun ") {
+				for _, rs := range rep.RecSyms {
+					if strings.Contains(form, "("+rs+" ") {
+						drop = true
+					}
+				}
+			}
+			if drop {
+				rep.RecSyms = append(rep.RecSyms, sexprTokens(form)[2])
+				changed = true
+				continue
+			}
+			lp2.WriteString(form)
+			lp2.WriteByte('\n')
+		}
+		lp = lp2
+	}
+	rep.LightPreamble = lp.String()
 	rep.items = r.items
 	rep.QueryBytes = len(rep.Preamble) + len(bs)
 }
@@ -255,3 +333,92 @@ func (e *Engine) finish(r *run, rep *FuncReport) {
 func (e *Engine) sentinelUniverse() []*ssa.Global { return e.ErrGlobs }
 
 var _ = types.Typ
+
+// renumber makes obligation ordinals follow source order (line), not execution order, so
+// names are stable under reorderings of the control-flow traversal.
+func renumber(obls []*Obligation) {
+	groups := map[string][]*Obligation{}
+	for _, ob := range obls {
+		i := strings.LastIndex(ob.Name, ".")
+		groups[ob.Name[:i]] = append(groups[ob.Name[:i]], ob)
+	}
+	for prefix, g := range groups {
+		idx := make([]int, len(g))
+		for i := range idx {
+			idx[i] = i
+		}
+		sort.SliceStable(idx, func(a, b int) bool { return posLine(g[idx[a]].Pos) < posLine(g[idx[b]].Pos) })
+		for n, i := range idx {
+			g[i].Name = fmt.Sprintf("%s.%d", prefix, n+1)
+		}
+	}
+}
+
+func posLine(p string) int {
+	i := strings.LastIndex(p, ":")
+	if i < 0 {
+		return 1 << 30
+	}
+	n := 0
+	fmt.Sscanf(p[i+1:], "%d", &n)
+	return n
+}
+
+// bindLets evaluates the contract's let-abbreviations over the entry state.
+func (r *run) bindLets(env *specEnv, ct *Contract, fr *frame) {
+	fr.lets = map[string]SVal{}
+	for _, l := range ct.Lets {
+		v := env.tr(l.Expr)
+		env.extra[l.Name] = v
+		fr.lets[l.Name] = v
+	}
+}
+
+// instantiate performs ghost calls of pure, contracted functions at function entry: the
+// callee's preconditions become obligations, its postconditions become known facts about
+// the (spec-level) result. Sound for callees whose contract says "assigns nothing".
+func (r *run) instantiate(fr *frame, st *State, ct *Contract, env *specEnv) {
+	for _, ic := range ct.Instantiate {
+		guard := "true"
+		if ic.Expr.Op == "bin" && ic.Expr.Val == "==>" {
+			guard = r.specBool(env, ic.Expr.Args[0], ic.Text)
+			ic.Expr = ic.Expr.Args[1]
+		}
+		if ic.Expr.Op != "call" {
+			r.unsupported("instantiate expects a call: %s", ic.Text)
+		}
+		name := ic.Expr.Val
+		var target *Contract
+		var callee *ssa.Function
+		for k, c := range r.eng.Contracts {
+			if strings.HasSuffix(k, "."+name) || strings.HasSuffix(k, "/"+name) || k == name {
+				if f := r.eng.Funcs[k]; f != nil {
+					if callee != nil && f != callee {
+						// prefer same package
+						if FnPkg(f) != nil && FnPkg(fr.fn) != nil && FnPkg(f) == FnPkg(fr.fn) {
+							target, callee = c, f
+						}
+						continue
+					}
+					target, callee = c, f
+				}
+			}
+		}
+		if target == nil {
+			r.unsupported("instantiate: no contracted function %q", name)
+		}
+		if !target.AssignsSet || len(target.Assigns) > 0 {
+			r.unsupported("instantiate: %s is not declared pure (assigns nothing)", name)
+		}
+		var args []Val
+		for i, a := range ic.Expr.Args {
+			v := env.tr(a)
+			var t types.Type
+			if i < len(callee.Params) {
+				t = callee.Params[i].Type()
+			}
+			args = append(args, Val{Term: v.Term, Sort: v.Sort, Type: t})
+		}
+		r.applyContract(fr, st, target, callee.Signature, callee, args, guard, fr.fn.Pos(), callee.String())
+	}
+}
